@@ -782,6 +782,8 @@ class Event(Component):
             raise InvalidCalendar("When DTSTART is a date, DURATION must be of days or weeks.")
         if start is not None and end is not None and is_date(start) != is_date(end):
             raise InvalidCalendar("DTSTART and DTEND must be of the same type, either date or datetime.")
+        if isinstance(start, datetime) and isinstance(end, datetime) and (start.utcoffset() is None) != (end.utcoffset() is None):
+            raise InvalidCalendar("DTSTART and DTEND must both be floating or both have a timezone.")
         return start, end, duration
 
 
@@ -895,6 +897,8 @@ class Todo(Component):
             raise InvalidCalendar("When DTSTART is a date, DURATION must be of days or weeks.")
         if start is not None and end is not None and is_date(start) != is_date(end):
             raise InvalidCalendar("DTSTART and DUE must be of the same type, either date or datetime.")
+        if isinstance(start, datetime) and isinstance(end, datetime) and (start.utcoffset() is None) != (end.utcoffset() is None):
+            raise InvalidCalendar("DTSTART and DUE must both be floating or both have a timezone.")
         return start, end, duration
 
 
